@@ -2497,6 +2497,8 @@ func c17Exec(c fw.Case) *fw.Result {
 	}
 	res := fw.NewResult()
 	switch c.Kind {
+	case "mpinvalid", "mpinline":
+		c17ExecInvalid(c, res)
 	case "random":
 		rw := int(c.Int("rw"))
 		if rw < 2 {
@@ -2526,7 +2528,7 @@ func init() {
 		ID:    "C17",
 		Level: "exploration",
 		Rule: "PRNG data sets (nodes located / without location / at the origin x untagged / uninteresting-only / interesting / mixed tags; ways open, area, closed non-area, missing nodes, shared and repeated nodes, one-node, empty, own way-node coordinates; " +
-			"relations route (arbitrary members, simple chains and loops, networks of 2..16 (thorough 30) shuffled and randomly reversed member ways in several sections with branches, shared end nodes and loops), simple valid multipolygon/boundary (one or two outer ways, optional hole, old style), other types; node, way, relation and missing members), plus the enumerated node-rule matrix; " +
+			"relations route (arbitrary members, simple chains and loops, networks of 2..16 (thorough 30) shuffled and randomly reversed member ways in several sections with branches, shared end nodes and loops), simple valid multipolygon/boundary (one or two outer ways, optional hole, old style), other types; node, way, relation and missing members), plus the enumerated node-rule matrix and area-rule table; plus invalid / partial multipolygon relations of 18 named classes and valid multipolygons given through member nodes (reduced oracle: no panic, no duplicate identity, options subtract, IncludeInvalidPolygons touches only the relation's own feature, determinism, immutability, same geometry from member nodes); " +
 			"every data set is converted under all 16 option sets, three times each. One evaluation = one (data set, option set). " +
 			"A signature is (element kinds present, node classes, way classes, relation classes); distinct_nontrivial counts distinct signatures.",
 		Assumptions: []string{
@@ -2560,6 +2562,7 @@ func init() {
 				}
 				cs = append(cs, fw.Case{Kind: "random", Seed: gen.Sub(seed, "c17", i), P: map[string]int64{"size": size, "rw": rw, "routes": routes}})
 			}
+			cs = append(cs, c17InvalidCases(tier, seed)...)
 			for _, v := range []string{"plain", "race"} {
 				cs = append(cs, fw.Case{Kind: "coldstart", Variant: v, P: map[string]int64{"processes": 5}})
 			}
